@@ -97,6 +97,7 @@ type Engine struct {
 	globalsSeen  map[string]*smt.Term
 	headStates   map[string]*State
 	UsedAssumed  map[string]bool
+	foreignGlobals map[string]bool
 
 	Obligs []*Obligation
 	Errors []string // tool errors
@@ -107,7 +108,7 @@ type Engine struct {
 func NewEngine(cfg Config) *Engine {
 	return &Engine{Cfg: cfg, C: smt.NewCtx(), Contracts: map[string]*FnContract{}, ByFn: map[*ssa.Function]*FnContract{},
 		Uninterp: map[*ssa.Function]bool{}, GhostAcc: map[*ssa.Function]bool{}, Overlay: map[string][]byte{}, GenSrc: map[string]string{},
-		strLits: map[string]*smt.Term{}, globalsSeen: map[string]*smt.Term{}, Stats: map[string]int{}, headStates: map[string]*State{}, UsedAssumed: map[string]bool{}}
+		strLits: map[string]*smt.Term{}, globalsSeen: map[string]*smt.Term{}, Stats: map[string]int{}, headStates: map[string]*State{}, UsedAssumed: map[string]bool{}, foreignGlobals: map[string]bool{}}
 }
 
 func (e *Engine) loadPkgs() (map[string]*packages.Package, []*packages.Package, error) {
